@@ -715,7 +715,9 @@ pub fn controller_main(def: &CheckDef, tier: Tier) -> i32 {
         "wall_s": wall,
         "violations": unknown,
     });
-    let edir = vdir.join("evidence");
+    // MC_EVIDENCE_DIR: used by the selftest / seed runners so that runs on deliberately patched
+    // trees never overwrite the evidence of the unchanged tree
+    let edir = std::env::var("MC_EVIDENCE_DIR").map(PathBuf::from).unwrap_or_else(|_| vdir.join("evidence"));
     let _ = std::fs::create_dir_all(&edir);
     if exit != 2 {
         let mut f = std::fs::File::create(edir.join(format!("{}.json", def.prop))).expect("evidence file");
